@@ -299,11 +299,20 @@ func checkC11(c *Ctx) {
 	// files no parser produced: nodes built from struct literals with the minimal fields (a FuncType without
 	// a parameter list, field lists without brackets, literals without Kind, ...), restored plainly, with
 	// import management and with Extras; the restorer's maps obey the same laws
-	for hi, hf := range c11HandFiles() {
-		for _, mode := range []string{"plain", "imports", "extras"} {
+	handFiles := c11HandFiles()
+	// (a parsed file too: decorated with import management, restored with an alias that turns one of its
+	// imports into a dot-import - its qualified identifiers are restored as plain ones)
+	if pf, err := decorator.NewDecoratorWithImports(token.NewFileSet(), "example.com/local", goast.New()).Parse("package p\n\nimport (\n\t\"fmt\"\n\t\"strings\"\n)\n\nfunc f() string {\n\tfmt.Println(strings.ToUpper(fmt.Sprint(1)))\n\treturn strings.Repeat(\"x\", 2)\n}\n"); err == nil {
+		handFiles = append(handFiles, pf)
+	}
+	for hi, hf := range handFiles {
+		for _, mode := range []string{"plain", "imports", "extras", "dot-alias"} {
+			if mode == "dot-alias" && hi < 2 {
+				continue
+			}
 			df := dst.Clone(hf).(*dst.File)
 			r := decorator.NewRestorer()
-			if hi == 2 { // identifiers with paths: import management is required
+			if hi >= 2 { // identifiers with paths: import management is required
 				r = decorator.NewRestorerWithImports("example.com/local", guess.New())
 			}
 			switch mode {
@@ -315,6 +324,18 @@ func checkC11(c *Ctx) {
 			key := fmt.Sprintf("hand-built-%d|%s|restorer", hi, mode)
 			var raf *ast.File
 			var rerr error
+			if mode == "dot-alias" {
+				fr := r.FileRestorer()
+				fr.Alias["fmt"] = "."
+				if msg := guard(func() { raf, rerr = fr.RestoreFile(df) }); msg != "" || rerr != nil {
+					c.Fail(Finding{Sig: "maps-observe-fails", Input: key, What: fmt.Sprintf("restoring with a dot-import alias: %s %v", msg, rerr), Replay: obj{"kind": "none"}})
+					continue
+				}
+				b, _ := json.Marshal(mapsRecord("restorer", raf, df, r.Map))
+				c.Eval(key, true)
+				items = append(items, traceItem{Key: key, Trace: append(b, '\n'), Events: 1, Replay: obj{"kind": "none"}})
+				continue
+			}
 			if msg := guard(func() { raf, rerr = r.RestoreFile(df) }); msg != "" || rerr != nil {
 				c.Fail(Finding{Sig: "maps-observe-fails", Input: key, What: fmt.Sprintf("restoring a hand-built file: %s %v", msg, rerr), Replay: obj{"kind": "none"}})
 				continue
